@@ -18,6 +18,8 @@ if TYPE_CHECKING:
 log = logging.getLogger(__name__)
 # never ask a single node for more pages of blob peers than this, whatever page count its replies claim
 MAX_PAGES_PER_PEER = 64
+# a single lookup never contacts more peers than this, however many ever closer contacts the replies keep offering
+MAX_CONTACTED_PER_LOOKUP = 256
 
 
 class FindResponse:
@@ -180,7 +182,7 @@ class IterativeFinder(AsyncIterator):
                           peer.node_id.hex()[:8])
             if peer in self.contacted:
                 continue
-            if len(self.running_probes) >= constants.ALPHA:
+            if len(self.running_probes) >= constants.ALPHA or len(self.contacted) >= MAX_CONTACTED_PER_LOOKUP:
                 break
             if index > (constants.K + len(self.running_probes)):
                 break
